@@ -230,9 +230,9 @@ def explore_configs(thorough):
            (2, "B,S5,J0,U,D", 0, 1, 3, 0), (2, "B,S5,S6,J1,J0,U,D", 0, 1, 6, 40)]
     if thorough:
         cfg += [(1, "B,S5,S6,J1,J0,U,D", 0, 0, 3, 0), (1, "B,S5,S6,S7,J0,J1,J2,U,D", 0, 0, 5, 0), (1, "B,S5,S6,S7,J2,J0,J1,U,D", 0, 0, 5, 0),
-                (1, "B,S5,J0,U,B,S6,J1,U,D", 0, 0, 5, 0), (2, "B,S5,J0,U,D", 1, 1, 6, 0),
-                (2, "B,S5,J0,U,D", 0, 0, 7, 0), (2, "B,S5,S6,J0,J1,U,D", 0, 1, 9, 0),
-                (2, "B,S5,S6,S7,J2,J0,J1,U,D", 0, 1, 9, 60), (3, "B,S5,S6,J1,J0,U,D", 0, 1, 8, 60)]
+                (1, "B,S5,J0,U,B,S6,J1,U,D", 0, 0, 5, 0),
+                (2, "B,S5,S6,S7,J2,J0,J1,U,D", 0, 1, 9, 60), (3, "B,S5,S6,J1,J0,U,D", 0, 1, 8, 60),
+                (2, "B,S5,J0,U,D", 1, 1, 6, 0), (2, "B,S5,J0,U,D", 0, 0, 7, 0), (2, "B,S5,S6,J0,J1,U,D", 0, 1, 9, 0)]
     return cfg
 
 
@@ -242,19 +242,33 @@ def explore(run, impl_exe, model, thorough):
     model's own count.  Configurations with a cap are samples (first `cap` schedules below every prefix)."""
     total, bad, details = 0, 0, []
     all_complete = True
+    import time
+    t_explore = time.time()
     for (w, script, budget, red, depth, cap) in explore_configs(thorough):
         base = "%d %s |" % (w, script)
         nwant = -1
         if not cap:
             want = vlib.run_lines(model, ["C %s %d 2000000000 %d" % (base, budget, red)], shards=1)[0]
             nwant = int(want.split(";")[0][2:]) if want.startswith("n=") else -1
+            # measured rate of this run so far decides whether a large space still fits into the tier's time budget
+            spent = time.time() - t_explore
+            rate = (total / spent) if spent > 5 and total > 20000 else 8000.0
+            left = (1500 if thorough else 200) - (time.time() - run.t0)
+            if nwant > 50000 and nwant / rate > left:
+                cap = 40
+                run.note("time budget: %dw %s (%d schedules, %.0f/s measured) is sampled instead of enumerated" % (w, script, nwant, rate))
+        pref = [""]
         if depth:
-            pref = vlib.run_lines(model, ["X %s %d %d %d" % (base, budget, red, depth)], shards=1)[0].split(";")
-        else:
-            pref = [""]
+            # deepen the prefixes until there are enough of them to keep 16 processes evenly busy
+            d = depth
+            while True:
+                pref = vlib.run_lines(model, ["X %s %d %d %d" % (base, budget, red, d)], shards=1)[0].split(";")
+                if cap or len(pref) >= 3000 or d >= depth + 8 or (0 <= nwant < 20000):
+                    break
+                d += 1
         run.rng.shuffle(pref)
         nsched, nbad, okc, ndup = 0, 0, True, 0
-        chunk = 256
+        chunk = 1024
         for c0 in range(0, len(pref), chunk):
             reqs = ["E %s %d %d %d %s" % (base, budget, cap if cap else 2000000000, red, p) for p in pref[c0:c0 + chunk]]
             ans = vlib.run_lines(impl_exe, reqs, env=ENV, timeout=3000)
